@@ -44,6 +44,18 @@ pub struct Plan {
     pub bucket_count: u32,
     pub bucket_ms: u64,
     pub ops: Vec<Op>,
+    /// the process-wide "recent" time of quanta was published once (at 1 ns) and is never
+    /// refreshed: an application that called `quanta::set_recent` / stopped its upkeep thread
+    #[serde(default)]
+    pub stale_recent: bool,
+}
+
+/// puts quanta's process-wide recent time back to "not maintained" when the run ends
+struct RecentReset(quanta::Instant);
+impl Drop for RecentReset {
+    fn drop(&mut self) {
+        quanta::set_recent(self.0);
+    }
 }
 
 fn expected_bounds(plan: &Plan, m: usize) -> Option<Vec<f64>> {
@@ -104,7 +116,22 @@ impl Scenario for C15Windows {
                 _ => Op::Render,
             })
             .collect();
-        Plan { matchers, global_buckets: r.chance(300), bucket_count: r.range(1, 5) as u32, bucket_ms: *r.pick(&[1u64, 7, 1000, 20_000]), ops }
+        if r.chance(40) {
+            // long windows: more than 64 buckets, one sample per bucket slot over more than a whole
+            // window, then renders — every sample still inside the window counts
+            let bucket_count = *r.pick(&[65u32, 100, 130]);
+            let mut ops = vec![];
+            for i in 0..(bucket_count + r.range(0, 10) as u32) {
+                ops.push(Op::Rec(4, i as i32));
+                ops.push(Op::Advance(1, 1));
+                if r.chance(20) {
+                    ops.push(Op::Render);
+                }
+            }
+            ops.push(Op::Render);
+            return Plan { matchers: vec![], global_buckets: false, bucket_count, bucket_ms: *r.pick(&[1u64, 1000]), ops, stale_recent: false };
+        }
+        Plan { matchers, global_buckets: r.chance(300), bucket_count: r.range(1, 5) as u32, bucket_ms: *r.pick(&[1u64, 7, 1000, 20_000]), ops, stale_recent: r.chance(50) }
     }
     fn execute(&self, plan: &Plan, sched: &SchedSpec) -> RunReport {
         let log: Arc<Mutex<Vec<String>>> = Arc::new(Mutex::new(vec![]));
@@ -153,6 +180,12 @@ impl Scenario for C15Windows {
                 }
             };
             quanta::with_clock(&clock, || {
+                let _reset = RecentReset(quanta::Instant::now());
+                if p.stale_recent {
+                    mock.increment(1);
+                    now += 1;
+                    quanta::set_recent(quanta::Instant::now());
+                }
                 for (i, op) in p.ops.iter().enumerate() {
                     dsim::point("c15.op");
                     match op {
@@ -344,6 +377,10 @@ impl Scenario for C15Windows {
                                         let tol = |x: f64| 1e-9 + 2e-3 * x.abs();
                                         let in_range = qv >= lo - tol(lo) && qv <= hi + tol(hi);
                                         let zero_ok = must.is_empty() && qv == 0.0;
+                                        // (the property claims containment only. A stricter reading — the extreme
+                                        // quantiles reach the extreme in-window samples — is false on the unchanged
+                                        // tree: a drain hands the newest block of 64 samples over first and
+                                        // RollingSummary::add drops a sample older than its newest bucket.)
                                         if !in_range && !zero_ok {
                                             fail("summary-outside-window", format!("op {} t={}ns: {} quantile {} = {} is outside [{}, {}], the range of samples inside the rolling window ({} buckets x {}ns; {} surely inside, {} possibly); samples (ts,value): {:?}", i, now, NAMES[m], q, qv, lo, hi, p.bucket_count, d, must.len(), may.len(), samples[m]));
                                         }
@@ -392,6 +429,11 @@ impl Scenario for C15Windows {
         if p.global_buckets {
             let mut q = p.clone();
             q.global_buckets = false;
+            out.push(q);
+        }
+        if p.stale_recent {
+            let mut q = p.clone();
+            q.stale_recent = false;
             out.push(q);
         }
         out
